@@ -88,6 +88,10 @@ def run_check(prop, tier, sizes, scale=1.0):
         print(f"candidate violation class {want} in {len(runs)} run(s); minimising seed {r['seed']} ({len(r['ops'])} ops)")
         sys.stdout.flush()
         ops, attempts = driver.shrink(prop, prop, r["seed"], r.get("cfg"), r["ops"], want, [prop], shrink_budget)
+        rmin = driver.forked_run(prop, r["seed"], ops=ops, cfg=r.get("cfg"), stop_props=[prop])
+        if rmin.get("violation") and [rmin["violation"]["oracle"], rmin["violation"]["callee"]] == want:
+            v = rmin["violation"]
+            r = dict(r, violation=v)
         path = driver.write_replay(prop, prop, r, ops, want, attempts)
         ok, out = driver.replay_in_fresh_interpreter(path)
         if ok:
